@@ -467,7 +467,9 @@ func (s *sched) recvReady(t *thread, p unsafe.Pointer, cap int) bool {
 	if len(c.buf) > 0 || c.closed {
 		return true
 	}
-	return s.partner(t, p, true) != nil
+	// Direct hand-off from a sender exists only on unbuffered channels; on a buffered channel with an empty
+	// buffer a pending sender is itself enabled and will put its value into the buffer first (FIFO).
+	return c.cap == 0 && s.partner(t, p, true) != nil
 }
 
 func (s *sched) sendReady(t *thread, p unsafe.Pointer, cap int) bool {
@@ -481,7 +483,9 @@ func (s *sched) sendReady(t *thread, p unsafe.Pointer, cap int) bool {
 	if len(c.buf) < c.cap {
 		return true
 	}
-	return s.partner(t, p, false) != nil
+	// rendezvous only on unbuffered channels: with a full buffer a pending receiver takes the oldest buffered
+	// value first, it never receives the new one directly.
+	return c.cap == 0 && s.partner(t, p, false) != nil
 }
 
 // partner finds a thread other than t that is parked in the complementary operation on channel p (lowest id
